@@ -451,6 +451,63 @@ func TestC18(t *testing.T) {
 	}
 }
 
+// TestC18Nils: the nils of an interface-typed parameter. The nil interface and typed nils of different types are all
+// different values (an interface holding (*S)(nil) is not nil); each equals only itself.
+func TestC18Nils(t *testing.T) {
+	rep := vmon.NewReport("C18")
+	defer rep.Write()
+	ifaceT := reflect.TypeOf((*interface{})(nil)).Elem()
+	errT := reflect.TypeOf((*error)(nil)).Elem()
+	type nv struct {
+		name string
+		v    interface{}
+	}
+	nils := []nv{{"nil", nil}, {"(*S)(nil)", (*S)(nil)}, {"(**S)(nil)", (**S)(nil)}, {"[]int(nil)", []int(nil)}, {"map[string]int(nil)", map[string]int(nil)},
+		{"(*N)(nil)", (*N)(nil)}, {"[]string(nil)", []string(nil)}, {"(*nilErr)(nil)", (*nilErr)(nil)}, {"(*nilErr2)(nil)", (*nilErr2)(nil)}}
+	for _, pt := range []reflect.Type{ifaceT, errT} {
+		for i, x := range nils {
+			for j, a := range nils {
+				if pt == errT {
+					// only values that implement error can be arguments or expectations of an error parameter
+					okx := x.v == nil || reflect.TypeOf(x.v).Implements(errT)
+					oka := a.v == nil || reflect.TypeOf(a.v).Implements(errT)
+					if !okx || !oka {
+						continue
+					}
+				}
+				want := i == j
+				got, perr := evalExpr(arg.Equals(x.v), pt, a.v)
+				rep.Eval(1)
+				c := map[string]interface{}{"parameter": pt.String(), "x": x.name, "a": a.name}
+				if perr != nil {
+					rep.Violate("C18/equals-panics", fmt.Sprintf("Equals(%s)(%s) on a %s parameter: %v", x.name, a.name, pt, perr), c)
+				} else if got != want {
+					rep.Violate("C18/equals-wrong", fmt.Sprintf("Equals(%s)(%s) on a %s parameter = %v, Go equality says %v", x.name, a.name, pt, got, want), c)
+				}
+				gotIn, perr := evalExpr(arg.In(x.v, 5), pt, a.v)
+				if pt == errT {
+					gotIn, perr = evalExpr(arg.In(x.v), pt, a.v)
+				}
+				rep.Eval(1)
+				if perr != nil {
+					rep.Violate("C18/in-panics", fmt.Sprintf("In(%s, ...)(%s) on a %s parameter: %v", x.name, a.name, pt, perr), c)
+				} else if gotIn != want {
+					rep.Violate("C18/in-not-union", fmt.Sprintf("In(%s, ...)(%s) on a %s parameter = %v, union of Equals says %v", x.name, a.name, pt, gotIn, want), c)
+				}
+			}
+		}
+		rep.Class("nils/" + pt.String())
+	}
+}
+
+type nilErr struct{}
+
+func (*nilErr) Error() string { return "nilErr" }
+
+type nilErr2 struct{}
+
+func (*nilErr2) Error() string { return "nilErr2" }
+
 // ---- through real When stubs
 
 //go:noinline
